@@ -2,6 +2,7 @@
 extensions where the property statement places them outside the RFC clause."""
 from functools import reduce
 
+from jsonpath.exceptions import JSONPointerError
 from jsonpath.exceptions import JSONPointerIndexError
 from jsonpath.exceptions import JSONPointerKeyError
 from jsonpath.exceptions import JSONPointerResolutionError
@@ -104,3 +105,53 @@ def parent_parts(parts):
 def same_tokens(a_parts, b_parts):
     """Two pointers are equal exactly when their reference tokens (strings) are equal."""
     return tokens(a_parts) == tokens(b_parts)
+
+
+# ---- pointer text (RFC 6901 section 3 syntax, section 4 decoding order): the functions the Lean
+# lemmas of lemmas/PointerText.lean are stated about (enc / dec / text / parse there)
+
+def encode_token(t):
+    """Section 3: '~' is spelled '~0' and '/' is spelled '~1' ('~' first, or '~1' would be re-escaped)."""
+    return t.replace("~", "~0").replace("/", "~1")
+
+
+def decode_token(p):
+    """Section 4: '~1' first, then '~0' ('~01' is '~1', never '/')."""
+    return p.replace("~1", "/").replace("~0", "~")
+
+
+def pointer_text(parts):
+    """json-pointer = *( "/" reference-token ): every token, escaped, behind a slash."""
+    if len(parts) == 0:
+        return ""
+    return "/" + "/".join([encode_token(str(p)) for p in parts])
+
+
+def parse_text(s, lo, hi):
+    """The tokens of a pointer text: what stands between the slashes, decoded; a non-empty text must
+    start with a slash.  (Leading blanks are dropped: library behaviour outside the statement.)"""
+    s = s.lstrip()
+    if s != "" and not s.startswith("/"):
+        raise JSONPointerError("pointer must start with a slash or be the empty string")
+    return tuple([index_token(decode_token(p), lo, hi) for p in s.split("/")])[1:]
+
+
+def join_tokens(parts, other, lo, hi):
+    """`p / other` for a text that does not start with a slash: other's tokens (split at slashes,
+    decoded) are appended to p's."""
+    return tuple(list(parts) + [index_token(decode_token(p), lo, hi) for p in other.split("/")])
+
+
+def unicode_unescape(s):
+    """Placeholder for the optional backslash-escape decoding step (outside RFC 6901; summarised in the
+    contracts as one uninterpreted function shared with JSONPointer._unicode_escape)."""
+    return s
+
+
+def truediv_parts(parts, other, lo, hi):
+    """`p / other`: the text (leading blanks dropped, escapes decoded) either is a whole pointer
+    (leading slash: it replaces p) or names further tokens below p."""
+    o = unicode_unescape(other.lstrip())
+    if o.startswith("/"):
+        return None
+    return join_tokens(parts, o, lo, hi)
